@@ -463,7 +463,11 @@ Definition m_quant (c : call) : res :=
   let vs := quant_vals c in
   match c_fn c with
   | FEvery => if forallb (fun b => b) vs then RTrue else RNil
-  | FSome => if existsb (fun b => b) vs then RTrue else RNil          (* returns t, not the value *)
+  (* some returns the first non-nil value of the predicate: t for the predicates answering t; the
+     one-sequence predicate of the flag style (lambda (x) (if ... x nil)) answers the element *)
+  | FSome => if c_flag c && (c_nseq c =? 1)%nat then
+               match find (pred_app (c_pred c)) (elems (c_seq c)) with Some x => RElt x | None => RNil end
+             else if existsb (fun b => b) vs then RTrue else RNil
   | FNotany => if existsb (fun b => b) vs then RNil else RTrue
   | _ => if forallb (fun b => b) vs then RNil else RTrue
   end.
